@@ -426,7 +426,8 @@ func (f *Font) GlyphName(gid glyph.ID) string {
 	case *cff.Outlines:
 		return f.Glyphs[gid].Name
 	case *glyf.Outlines:
-		if f.Names == nil {
+		if int(gid) >= len(f.Names) {
+			// no names, or a "post" table with fewer names than glyphs
 			return ""
 		}
 		return f.Names[gid]
